@@ -17,7 +17,9 @@ use pushr::push::item::Item;
 const MIB: usize = 1 << 20;
 
 fn ladder() -> Vec<i32> {
-    vec![-1, 0, 1, 2, 1000, 1_000_000, i32::MAX, -1_000_000, i32::MIN + 1, i32::MIN]
+    // 2^24 + 2 and 2 * 10^7: beyond single-precision integer range, yet small enough that a cost linear in the
+    // operand (the recorded finding) stays inside the armed budget -- anything worse than linear does not
+    vec![-1, 0, 1, 2, 1000, 1_000_000, 16_777_218, 20_000_000, i32::MAX, -1_000_000, -16_777_218, i32::MIN + 1, i32::MIN]
 }
 
 fn other_operand(c: Comp, need: usize) -> Option<Frag> {
@@ -52,6 +54,11 @@ pub fn ladder_family(ctx: &mut Ctx) {
         let mut cases: Vec<(usize, i32)> = vec![];
         for pos in 0..need_i {
             for rung in ladder() {
+                // the scripted RNG logs every draw in this process: for RAND instructions the log itself would
+                // exhaust the budget at tens of millions of draws
+                if ft.random && (rung as i64).abs() > 1_000_000 && (rung as i64).abs() < 1_000_000_000 {
+                    continue;
+                }
                 cases.push((pos, rung));
             }
         }
@@ -107,7 +114,11 @@ pub fn ladder_family(ctx: &mut Ctx) {
                     Outcome::Ok(_) => {
                         // the state holds a handful of small items: anything beyond 64 MiB / 4 M allocations / 10 s
                         // can only come from the operand's magnitude
-                        if bytes > 64 * MIB || allocs > 4_000_000 || wall > 10.0 {
+                        let linear = (rung as i64).unsigned_abs() as usize;
+                        if (bytes > 64 * MIB || allocs > 4_000_000) && wall <= 10.0 && bytes <= 32 * linear + MIB && allocs <= 2 * linear + 1000 && crate::alpha::size_like(name) {
+                            // the recorded finding as it is: the size operand is used unchecked, at a cost LINEAR in it
+                            ("over-linear".to_string(), Verdict::Known("KF-C15-allocation-sized-by-operand"))
+                        } else if bytes > 64 * MIB || allocs > 4_000_000 || wall > 10.0 {
                             ("over".to_string(), Verdict::fail(name, "cost-follows-operand-magnitude", format!("operand {} at INTEGER position {}: {} bytes, {} allocations, {:.2} s in one step", rung, pos, bytes, allocs, wall)))
                         } else {
                             (format!("{}|{}|{}", name, pos, if (rung as i64).abs() >= 1000 { "big" } else { "small" }), Verdict::Pass)
